@@ -103,7 +103,7 @@ func (e *Engine) callFn(fr *frame, fn *ssa.Function, args []Value, env []Value, 
 			return e.callFunction(rd, args, nil, deferOf)
 		}
 	}
-	if rd, ok := e.ld.redirects[key]; ok {
+	if rd, ok := e.ld.redirects[key]; ok && !(e.cfg.Flags["real-net"] && strings.HasPrefix(key, "(net.IP).")) {
 		e.res.Stubs["redirect "+key+" -> "+rd.String()]++
 		return e.callFunction(rd, args, nil, deferOf)
 	}
